@@ -101,6 +101,15 @@ impl Workers {
     }
 }
 
+/// Small signed asset used as the checkpointed probe operation of `cp`.
+fn probe_asset() -> &'static (String, Vec<u8>) {
+    static A: std::sync::OnceLock<(String, Vec<u8>)> = std::sync::OnceLock::new();
+    A.get_or_init(|| {
+        let src = std::fs::read(fixtures().join("IMG_0003.jpg")).expect("fixture");
+        ("image/jpeg".to_string(), sign_asset("image/jpeg", &src, None).expect("sign probe asset"))
+    })
+}
+
 fn tls_value() -> String {
     tls_hook::thread_local_value()
         .pointer("/core/merkle_tree_max_proofs")
@@ -123,8 +132,21 @@ fn exec_op(w: &mut World, workers: &Workers, nthr: usize, op: &Op, default_threa
             "x".to_string()
         }
         Op::Cp(c) => {
+            // a real checkpointed operation on the context: cancelled iff the flag is set. The
+            // flag must stay set (every later operation on the context is cancelled as well), and
+            // `is_cancelled()` must agree before and after.
             let ctx = w.ctxs[*c].clone();
-            workers.exec(t, Box::new(move || if ctx.is_cancelled() { "T".into() } else { "F".into() }))
+            workers.exec(t, Box::new(move || {
+                let before = ctx.is_cancelled();
+                let (fmt, data) = probe_asset();
+                let res = Reader::from_shared_context(&ctx).with_stream(fmt, Cursor::new(data.clone()));
+                let cancelled = matches!(res, Err(Error::OperationCancelled));
+                let after = ctx.is_cancelled();
+                if before != cancelled || after != before {
+                    return format!("flag-inconsistent:before={before},op-cancelled={cancelled},after={after}");
+                }
+                if cancelled { "T".into() } else { "F".into() }
+            }))
         }
         Op::Ca(c) => {
             let ctx = w.ctxs[*c].clone();
@@ -291,7 +313,7 @@ fn model_cases(run: &mut Run, rng: &mut Rng) {
         }
         run.count(if overlap { "sched_overlapping_cells" } else { "sched_disjoint_cells" });
         let idx = run.case(req, imp.clone());
-        if imp.contains("builder-mismatch") || imp.contains("resolver-changed") || imp.contains("worker-died") {
+        if imp.contains("builder-mismatch") || imp.contains("resolver-changed") || imp.contains("worker-died") || imp.contains("flag-inconsistent") {
             run.fail(idx, "context-state-anomaly", imp);
         }
         // oracle (independent of the model): with disjoint cells the outputs equal the sequential ones
@@ -410,6 +432,28 @@ fn concurrency(run: &mut Run, rng: &mut Rng) {
                 Err(_) => {
                     let idx = run.reqs.len().saturating_sub(1);
                     run.fail(idx, "panic", format!("round {round}: worker thread panicked"));
+                }
+            }
+        }
+        // the victim context was cancelled by some thread (or is cancelled now): EVERY operation
+        // that shares it must now be cancelled, on every thread, and stay so
+        victim.cancel();
+        let mut hs = vec![];
+        for t in 0..nthreads.min(4) {
+            let v = victim.clone();
+            let assets = assets.clone();
+            hs.push(std::thread::spawn(move || {
+                let (f, d) = &assets[t % assets.len()];
+                (0..2).map(|_| read_report(&v, f, d)).collect::<Vec<_>>()
+            }));
+        }
+        for h in hs {
+            if let Ok(results) = h.join() {
+                for r in results {
+                    if r != Err("cancelled".to_string()) {
+                        let idx = run.reqs.len().saturating_sub(1);
+                        run.fail(idx, "cancelled-context-ran-an-operation", format!("round {round}: an operation on a cancelled shared context returned {:?}", r.map(|s| s[..s.len().min(40)].to_string())));
+                    }
                 }
             }
         }
